@@ -1,0 +1,21 @@
+//go:build verif
+
+package verifx
+
+import "github.com/rqlite/rqlite/v10/internal/rsync"
+
+// Aliases of the coordination primitives in internal/rsync.
+type (
+	CheckAndSet       = rsync.CheckAndSet
+	MultiRSW          = rsync.MultiRSW
+	ReadyTargetUint64 = rsync.ReadyTarget[uint64]
+)
+
+var (
+	ErrCASConflict        = rsync.ErrCASConflict
+	ErrCASConflictTimeout = rsync.ErrCASConflictTimeout
+)
+
+func NewCheckAndSet() *CheckAndSet             { return rsync.NewCheckAndSet() }
+func NewMultiRSW() *MultiRSW                   { return rsync.NewMultiRSW() }
+func NewReadyTargetUint64() *ReadyTargetUint64 { return rsync.NewReadyTarget[uint64]() }
